@@ -24,7 +24,7 @@ META = dict(
     ],
     stubs=["open() of /proc/<pid>/{stat,status,task/<tid>/stat}, /proc/stat", "glob/os.stat over /dev/tty*, /dev/pts/*"],
     bounds=dict(quick=dict(comm_length_stat="0..6, 15", comm_length_status="0..8, 10", threads="2 threads, thread name length 0..4", numerals="[0, 2^64)"),
-                thorough=dict(comm_length_stat="0..15", comm_length_status="0..11", threads="3 threads, thread name length 0..8", numerals="[0, 2^64)")),
+                thorough=dict(comm_length_stat="0..15", comm_length_status="0..15", threads="3 threads, thread name length 0..15", numerals="[0, 2^64)")),
     outside=["status-file methods for symbolic names longer than the stated length (path count grows with the number of patterns that can match inside the name)", "non-ASCII symbolic characters"],
     labels=["stat-name", "stat-fields-unshifted", "status-uids", "status-gids", "status-num_threads", "status-ctx_switches", "numerals-exact", "state-letter", "terminal", "named-thread-times", "main-thread"],
 )
@@ -87,7 +87,7 @@ def stat_name(ctx, L, witness):
 
 
 @harness("C06.status_name", quick=[dict(L=L, witness=None) for L in (0, 1, 2, 4, 6, 8, 10)] + [dict(L=0, witness=i) for i in range(len(WITNESS_NAMES))],
-         thorough=[dict(L=L, witness=None) for L in range(12)] + [dict(L=0, witness=i) for i in range(len(WITNESS_NAMES))], timeout_ms=20000)
+         thorough=[dict(L=L, witness=None) for L in range(16)] + [dict(L=0, witness=i) for i in range(len(WITNESS_NAMES))], timeout_ms=20000)
 def status_name(ctx, L, witness):
     """status-derived facts with the (symbolic) comm on the Name: line"""
     k = simk.Kernel(ctx)
@@ -160,7 +160,7 @@ def numerals(ctx, nfields):
 
 
 @harness("C06.threads", quick=[dict(L=L, nthreads=2, witness=None) for L in (0, 1, 2, 4)] + [dict(L=0, nthreads=2, witness=i) for i in range(len(WITNESS_NAMES))],
-         thorough=[dict(L=L, nthreads=3, witness=None) for L in range(9)] + [dict(L=15, nthreads=2, witness=None)] + [dict(L=0, nthreads=3, witness=i) for i in range(len(WITNESS_NAMES))])
+         thorough=[dict(L=L, nthreads=3, witness=None) for L in range(16)] + [dict(L=0, nthreads=3, witness=i) for i in range(len(WITNESS_NAMES))])
 def threads(ctx, L, nthreads, witness):
     """threads(): (tid, utime/CLK, stime/CLK) in tid order, whatever the thread names contain"""
     k = simk.Kernel(ctx)
